@@ -1027,22 +1027,32 @@ impl<'a> CompilerState<'a> {
                 let lhs = lhs?;
                 let rhs = rhs?;
                 let res = match op.as_rule() {
-                    Rule::mul => lhs * rhs,
+                    // 32 bits two's complement arithmetic, in debug builds too
+                    Rule::mul => lhs.wrapping_mul(rhs),
                     Rule::div => {
                         let d = rhs;
                         if d == 0 {
                             let start = op.as_span().start();
                             return Err(self.syntax_error("Division by zero", start));
                         }
-                        lhs / d
+                        lhs.wrapping_div(d)
                     }
-                    Rule::add => lhs + rhs,
-                    Rule::sub => lhs - rhs,
+                    Rule::add => lhs.wrapping_add(rhs),
+                    Rule::sub => lhs.wrapping_sub(rhs),
                     Rule::and => lhs & rhs,
                     Rule::or => lhs | rhs,
                     Rule::xor => lhs ^ rhs,
-                    Rule::brs => lhs >> rhs,
-                    Rule::bls => lhs << rhs,
+                    Rule::brs | Rule::bls => {
+                        if !(0..32).contains(&rhs) {
+                            let start = op.as_span().start();
+                            return Err(self.syntax_error("Shift count out of range", start));
+                        }
+                        if op.as_rule() == Rule::brs {
+                            lhs >> rhs
+                        } else {
+                            lhs << rhs
+                        }
+                    }
                     Rule::land => {
                         if lhs != 0 && rhs != 0 {
                             1
